@@ -1037,7 +1037,13 @@ class TeX(object):
         self.cast()
 
         """
-        return type(self.normalize(tokens))
+        text = self.normalize(tokens)
+        content = getattr(text, 'textContent', None)
+        if not isinstance(text, str) and content is not None:
+            # The argument contained something besides character tokens
+            # (e.g., a {...} group): use its text rather than its repr()
+            text = ''.join(content)
+        return type(text)
 
     def castLabel(self, tokens, **kwargs):
         """
